@@ -350,7 +350,8 @@ calcvla(struct func *f, struct type *t)
 	assert(t->kind == TYPEARRAY);
 	if (!t->u.array.size) {
 		assert(t->base->size || t->base->kind == TYPEARRAY);
-		assert(t->u.array.length);
+		if (!t->u.array.length)
+			error(&tok.loc, "array of unspecified length '[*]' is only allowed in a function prototype");
 		length = convert(f, &typeulong, t->u.array.length->type, funcexpr(f, t->u.array.length));
 		basesize = t->base->prop & PROPVM && !t->base->size ? t->base->u.array.size : mkintconst(t->base->size);
 		t->u.array.size = funcinst(f, IMUL, 'l', length, basesize);
